@@ -887,6 +887,21 @@ def run(ctx):
                 ctx.violation("tiny-skia table %s could not be computed: %s" % (nme, str(r)[:200]), dict(op='c15-table', table=nme))
                 continue
             tabs[nme] = r
+        # second pass: group opacity (draw_pixmap with PixmapPaint.opacity onto a transparent pixmap): all 256 x 256 (channel, opacity byte)
+        # pairs in four parallel evaluations + 8 random f32 opacities, against Model/ClipMask.v opacity_u8
+        import struct as _st
+        ofs = [rng.below(1 << 24) / float(1 << 24) for _ in range(8)]
+        obits = [_st.unpack('>I', _st.pack('>f', o))[0] for o in ofs]
+        oouts = ctx.rvh_batch(binp, 'c15-table', ['opacity:%d:%d' % (q * 64, q * 64 + 64) for q in range(4)] + ['opacityf:%d' % b for b in obits])
+        orows = [P.jload(o) for o in oouts]
+        if any('t' not in r for r in orows):
+            ctx.violation("tiny-skia opacity table could not be computed: %s" % str([r for r in orows if 't' not in r][:1])[:200], dict(op='c15-table', table='opacity'))
+        else:
+            for q in range(4):
+                evals.append(('k1_opacity_%d' % q, "Local Open Scope Z_scope.\nDefinition impl : list Z := %s.\nEval vm_compute in (first5 (diff_indices (opacity_rows %d 64%%nat) impl)).\n"
+                              % (P.zl(orows[q]['t']), q * 64), IMPORTS))
+            evals.append(('k1_opacityf', "Local Open Scope Z_scope.\nEval vm_compute in [%s].\n" % ";\n".join(
+                "(verdict (diff_indices (opacity_row_f %s) %s))" % (P.coq_f32(o), P.zl(r['t'])) for o, r in zip(ofs, orows[4:])), IMPORTS))
         small = []
         labels = []
         if 'mask' in tabs:
@@ -988,6 +1003,20 @@ def run(ctx):
             for lab, v in zip(labels, lst):
                 if v:
                     ctx.violation("tiny-skia table %s disagrees with the model at index %d" % (lab, v - 1), dict(op='c15-table', table=lab, index=v - 1))
+        elif name.startswith('k1_opacity_'):
+            n_corr += 16384
+            if lst:
+                q = int(name.rsplit('_', 1)[1])
+                i = lst[0]
+                ctx.violation("group opacity: tiny-skia draw_pixmap with PixmapPaint.opacity = %d/255 maps the premultiplied channel %d to %s, the binary32 model "
+                              "(C15_opacity_u8) says otherwise" % (q * 64 + i // 256, i % 256, orows[q]['t'][i]),
+                              dict(op='c15-table', table='opacity:%d:%d' % (q * 64, q * 64 + 64), index=i))
+        elif name == 'k1_opacityf':
+            n_corr += 256 * 8
+            for o, b, v in zip(ofs, obits, lst):
+                if v:
+                    ctx.violation("group opacity: tiny-skia draw_pixmap with PixmapPaint.opacity = %r disagrees with the binary32 model at channel %d" % (o, v - 1),
+                                  dict(op='c15-table', table='opacityf:%d' % b, index=v - 1))
         elif name == 'k1_lum':
             n_corr += len(impl)
             if lst:
